@@ -79,6 +79,7 @@ type parser struct {
 	// default layout qualifiers set by "layout(...) uniform;" / "layout(...) buffer;"
 	defUniform, defBuffer blockDefaults
 	kev                   *inv // constant evaluator
+	layoutOnly            bool // ParseLayout: function bodies are skipped, 16-bit float types are declarable
 }
 
 type blockDefaults struct {
@@ -97,7 +98,9 @@ func (p *parser) unsup(line int, f string, a ...any) {
 }
 
 // Parse parses and checks a GLSL compute shader.
-func Parse(src string) (prog *Program, err error) {
+func Parse(src string) (prog *Program, err error) { return parse(src, false) }
+
+func parse(src string, layoutOnly bool) (prog *Program, err error) {
 	defer func() {
 		if r := recover(); r != nil {
 			prog = nil
@@ -116,7 +119,7 @@ func Parse(src string) (prog *Program, err error) {
 	if lerr != nil {
 		return nil, lerr
 	}
-	p := &parser{toks: toks, prog: &Program{version: 110}}
+	p := &parser{toks: toks, prog: &Program{version: 110}, layoutOnly: layoutOnly}
 	p.defUniform.packing, p.defBuffer.packing = "shared", "shared"
 	for _, d := range dirs {
 		p.directive(d)
@@ -125,7 +128,9 @@ func Parse(src string) (prog *Program, err error) {
 	p.nScopes = 1
 	p.kev = newConstEvaluator(p.prog)
 	p.translationUnit()
-	p.finish()
+	if !layoutOnly {
+		p.finish()
+	}
 	return p.prog, nil
 }
 
@@ -442,6 +447,10 @@ func (p *parser) externalDecl() {
 	}
 	// function?
 	if p.peek().kind == tkIdent && p.peekN(1).kind == tkPunct && p.peekN(1).text == "(" {
+		if p.layoutOnly {
+			p.skipFunction()
+			return
+		}
 		p.functionDecl(q, base)
 		return
 	}
@@ -540,6 +549,11 @@ func (p *parser) typeByName(t token) *Type {
 	}
 	if bt, ok := builtinTypeNames[t.text]; ok {
 		return bt
+	}
+	if p.layoutOnly {
+		if ht := halfTypeNames[t.text]; ht != nil {
+			return ht
+		}
 	}
 	if isOpaqueTypeName(t.text) {
 		p.unsup(t.line, "type %s", t.text)
